@@ -12,6 +12,7 @@ import (
 	"servitor/jtp"
 	"servitor/verifkit"
 	"servitor/verifsim"
+	"strings"
 	"testing"
 	"time"
 )
@@ -272,10 +273,11 @@ func (v *verifSanitizer) obligation(o verifObligation, all bool) {
 						v.show(o, actor, "actor.id")
 					}
 				}
-			case "status_line", "header_value", "location_host":
+			case "status_line", "header_value", "location_host", "status_line_inline", "header_value_inline", "location_host_inline":
 				target := fmt.Sprintf("/net%d", v.n)
 				var raw string
-				switch o.Src {
+				inline := strings.HasSuffix(o.Src, "_inline")
+				switch strings.TrimSuffix(o.Src, "_inline") {
 				case "status_line":
 					raw = []string{"HTTP/1.1 200 " + payload + "\r\nContent-Type: application/activity+json\r\n\r\n{}", payload + "\r\n\r\n", "HTTP/9.9 " + payload + "\r\n\r\n",
 						"HTTP/1.1 404 " + payload + "\r\n\r\n"}[v.rng.Intn(4)]
@@ -288,6 +290,18 @@ func (v *verifSanitizer) obligation(o verifObligation, all bool) {
 				}
 				v.h.Set(target, &verifsim.Route{Raw: []byte(raw)})
 				jtp.VerifSetCache(8)
+				if inline {
+					/* the failed fetch is a secondary one; the item that asked for it prints the error itself */
+					actor := v.serveDoc(target+"-actor", map[string]any{"type": "Person", "name": "someone", "preferredUsername": "user", "outbox": v.h.URL(target),
+						"summary": "<p>bio</p>"})
+					v.show(o, New(actor, nil), o.Src+" (outbox of an actor)")
+					for _, kind := range []string{"Announce", "Like", "Dislike"} {
+						activity := v.serveDoc(target+"-"+kind, map[string]any{"type": kind, "actor": v.h.URL(target), "published": "2024-01-02T03:04:05Z",
+							"object": map[string]any{"type": "Note", "content": "<p>x</p>", "attributedTo": v.h.URL(target), "audience": v.h.URL(target)}})
+						v.show(o, New(activity, nil), o.Src+" (actor of "+kind+")")
+					}
+					continue
+				}
 				v.show(o, New(v.h.URL(target), nil), o.Src)
 				/* the same failure as a parent, a reply and an author */
 				note := v.serveDoc(target+"-ref", map[string]any{"type": "Note", "name": "t", "content": "<p>x</p>", "inReplyTo": v.h.URL(target),
